@@ -63,8 +63,8 @@ theorem afterCreate_events (inp : Input) (s : Sys) (n : Name) (nd : Node) (l : L
     · exact regexBlock_events ..
     · rw [finishLoader_events, regexBlock_events]
 
-theorem evalCreator_events (inp : Input) (s : Sys) (l : LId) (t : Name) :
-    (evalCreator inp s l t).events = Ev.creator (inp.creatorOf l) :: s.events := by
+theorem evalCreator_events (inp : Input) (s : Sys) (l : LId) (t : Name) (b : Bool) :
+    (evalCreator inp s l t b).events = Ev.creator (inp.creatorOf l) :: s.events := by
   unfold evalCreator
   split <;> rfl
 
